@@ -52,6 +52,7 @@ type FuncReport struct {
 	HasContract bool
 	Dropped     []string // positions of loop clauses that no longer bind (dropped for this run)
 	Imprecise   []string // contract-less repository callees that could not be handled exactly
+	LoopsLost   bool     // the function has fewer loops than recorded in loops.lock (a loop was removed, merged or extracted)
 }
 
 // unboundLoopClause: does the error message point at a loop clause of the contract (by its file:line position)?
@@ -205,6 +206,7 @@ func (e *Engine) verifyFunc(fi *FuncInfo, sweep bool) *FuncReport {
 		sort.Strings(rep.Unbound)
 	}
 	rep.Imprecise = c.imprecise
+	rep.LoopsLost = c.loopsLost
 	rep.MapRanges = c.mapRangeLoops
 	rep.Paths = c.pathsToReturn
 	return rep
@@ -509,8 +511,10 @@ func cmdAll(args []string) {
 			fmt.Printf("UNBOUND %s: call-site clauses for %s, but the function has no such call\n", shortFuncKey(k), u)
 			bad++
 		}
-		for _, d := range rep.Imprecise {
-			fmt.Printf("IMPRECISE %s: calls %s (failing obligations of this function are undecided)\n", shortFuncKey(k), d)
+		if impreciseUndecided(rep) {
+			for _, d := range rep.Imprecise {
+				fmt.Printf("IMPRECISE %s: calls %s (failing obligations of this function are undecided)\n", shortFuncKey(k), d)
+			}
 		}
 		for i, o := range rep.Obls {
 			jobs = append(jobs, &solveJob{name: o.Name, text: rep.Texts[i], cover: o.Cover})
